@@ -34,8 +34,16 @@ func checkC04(r *Run) propMeta {
 			if tv, has := finfo.Types[cc.List[0]]; !has || tv.Type.String() != "string" {
 				return true
 			}
-			txt := strings.ReplaceAll(exprString(r.Fset, &ast.BlockStmt{List: cc.Body}), " ", "")
-			if strings.Contains(txt, `strings.ReplaceAll(typedValue,"'","''")`) && strings.Count(txt, `"'"`) >= 3 {
+			// the case writes an opening quote, the value with every quote doubled, and a closing quote
+			body := &ast.BlockStmt{List: cc.Body}
+			quoteConsts := 0
+			ast.Inspect(body, func(m ast.Node) bool {
+				if e, isExpr := m.(ast.Expr); isExpr && constStringArg(finfo, e, "'") {
+					quoteConsts++
+				}
+				return true
+			})
+			if findDoublingReplace(finfo, body, "'") != nil && quoteConsts >= 3 {
 				ok = true
 			}
 			return true
@@ -184,8 +192,7 @@ func checkC04(r *Run) propMeta {
 		r.Fail("C04-R3-alias-position", "format:AliasedExpression", token.NoPos, "the alias of an aliased expression is pushed to the output verbatim: a user-chosen result alias is read as SQL")
 	}
 	if fa := fdecls["formatAlias"]; fa != nil {
-		txt := strings.ReplaceAll(exprString(r.Fset, fa.Body), " ", "")
-		if strings.Contains(txt, "strings.ReplaceAll(value,`\"`,`\"\"`)") || strings.Contains(txt, `strings.ReplaceAll(value,"\"","\"\"")`) {
+		if findDoublingReplace(fp.TypesInfo, fa.Body, `"`) != nil {
 			r.Pass("C04-R3-alias-position", "formatAlias:doubles-quotes", fa.Pos(), "embedded double quotes are doubled inside the delimited identifier")
 		} else {
 			r.Fail("C04-R3-alias-position", "formatAlias:doubles-quotes", fa.Pos(), "formatAlias no longer doubles embedded double quotes")
